@@ -23,6 +23,8 @@ def run_streams(env, res, directed, n_random, weights=None, observables=None, ra
     try:
         for name, gen, n in directed:
             for prog, expect, meta in gen(random.Random(env.seed), n):
+                if env.out_of_time():
+                    break
                 flow_impl.prepare(prog)
                 if expect.get('entries'):
                     floworacle.fix_lines(prog, expect)
@@ -30,6 +32,10 @@ def run_streams(env, res, directed, n_random, weights=None, observables=None, ra
                 res.count('family:' + meta.get('family', name))
         rng = random.Random(env.seed * 7919 + 13)
         for _ in range(n_random):
+            if env.out_of_time():
+                break
+            if env.escalated and any(f['kind'] == 'property' for f in res.findings):
+                break            # the escalated search has its failing input
             prog = flowgen.random_program(rng, weights)
             one(env, res, drv, impl, prog, {'family': 'random'}, None, observables, random_monitor)
             res.count('family:random')
